@@ -63,6 +63,10 @@ def build_vhdl_campaign(tier, sd):
         add_E(2, 2, 0.3, tl=True)
         add_E(4, 1, 0.05)
         nrand = 1500
+    for desc in families.enum_P():
+        if tier == "quick" and rnd.random() >= 0.5:
+            continue
+        add(families.build_P(desc), "P")
     rc = families.RandomCharts(sd * 733 + 18)
     n0 = len(cp.charts)
     for _ in range(nrand * 6):
